@@ -420,6 +420,12 @@ type LoopSpec struct {
 	Invariants []*Clause
 	Decreases  *Clause
 	Modifies   []string // optional explicit loop frame targets
+	EachRound  []EachRound // in every round of the loop some call to Callee satisfies Cond
+}
+
+type EachRound struct {
+	Callee string
+	Cond   *Clause
 }
 
 type Contract struct {
@@ -501,7 +507,7 @@ func NewSpecs() *Specs {
 	return &Specs{Contracts: map[string]*Contract{}, Funs: map[string]*SpecFun{}, Ghosts: map[string]*GhostFun{}}
 }
 
-var keywordRe = regexp.MustCompile(`^(func|iface|functype|spec|ufun|hfun|haxiom|hlemma|axiom|lemma|ghost|property|trusted|pure|implements|requires|ensures|modifies|loop|invariant|decreases|end|may_panic|nosafety|assume|alloc|hint|posthint|replay|check|split|ghostset|atcall|assumepre|slicewf|recovers|onpanic|unsafe_reads|absidx|tier)\b`)
+var keywordRe = regexp.MustCompile(`^(func|iface|functype|spec|ufun|hfun|haxiom|hlemma|axiom|lemma|ghost|property|trusted|pure|implements|requires|ensures|modifies|loop|invariant|decreases|end|may_panic|nosafety|assume|alloc|hint|posthint|replay|check|split|ghostset|atcall|assumepre|slicewf|recovers|onpanic|unsafe_reads|absidx|tier|eachround)\b`)
 var labelRe = regexp.MustCompile(`^([A-Za-z_][A-Za-z0-9_.]*)\s*:([^:]|$)`)
 var propTagRe = regexp.MustCompile(`^\[([A-Za-z0-9 ,]+)\]\s*`)
 var headRe = regexp.MustCompile(`^(\S.*?)\(([^)]*)\)\s*(?:\(([^)]*)\))?\s*$`)
@@ -800,6 +806,24 @@ func (sp *Specs) ParseSpecFile(path string, pkg string) error {
 				c.Label = fmt.Sprintf("i%d", len(curLoop.Invariants))
 			}
 			curLoop.Invariants = append(curLoop.Invariants, c)
+		case "eachround":
+			// eachround Callee: [props] label: cond   (inside a loop block): every round of the loop that comes back to the
+			// loop head has made at least one call to Callee for which cond held (ARGn / FN as in atcall)
+			if curLoop == nil {
+				return fmt.Errorf("%s:%d: eachround outside loop", path, l.n)
+			}
+			k := strings.Index(rest, ":")
+			if k < 0 {
+				return fmt.Errorf("%s:%d: eachround needs 'Callee: [props] label: cond'", path, l.n)
+			}
+			c, err := mkClause(l, strings.TrimSpace(rest[k+1:]))
+			if err != nil {
+				return err
+			}
+			if c.Label == "" {
+				c.Label = fmt.Sprintf("round%d", len(curLoop.EachRound))
+			}
+			curLoop.EachRound = append(curLoop.EachRound, EachRound{Callee: strings.TrimSpace(rest[:k]), Cond: c})
 		case "decreases":
 			c, err := mkClause(l, rest)
 			if err != nil {
